@@ -11,9 +11,11 @@ ASSUMPTIONS = [
     'delays are finite numbers >= 0, loss rates lie in [0, 1] or are None, an `out` is attached',
     'the loss draws and the delays are inputs of the model, recorded from the implementation (`random.uniform` stand-in inside onl.netdev.wire, the harness\'s `delay_dist`); nothing is claimed about their distribution or independence',
     'theorems are over exact rationals; the replay compares IEEE doubles bit for bit. In floats the wire sleeps `delay - (now - arrival)` and so leaves at `now + (delay - (now - arrival))`, which may differ from `arrival + delay` by rounding: the oracle recomputes exactly that expression and checks the literal `max(a + d, previous delivery)` within 4 ulp',
-    'the wire process on the real kernel refines the FifoServer LTS: checked by replay (labels from Process.target), not proved',
+    'the wire process on the real kernel refines the FifoServer LTS: checked by replay (labels from Process.target); proved for Wire.put/run + one source '
+    'as a process on the kernel MODEL K (Props/C10K.lean); not for several sources and Cable',
     'Cable: the two wires are replayed as two independent model instances fed only with their own arrivals and draws',
 ]
+EXTRA_MODULES = ('OnlVerif.Props.C10K',)
 TRUSTED_EXTRA = ['the kernel guarantees (G1-G3) that make `tick` admissible only at quiescence are theorems of model K (C01), assumed for the device LTS',
                  'py2lean/elem.py + elements.py (typed AST-subset translator that splits a server generator at its `yield env.timeout` statements; '
                  'hand-written field schema of Wire objects, declared effects `self.store.put(packet)`, `packet.current_time = self.env.now`, `self.out.put(packet)`; external inputs `random.uniform(0, 1)`, `self.delay_dist()`); '
